@@ -27,6 +27,8 @@ AA = {
     'h0': '[$]C([H;0])O',
     'one': '[$][O;0.5;k=cap]',
     'sqlab': '[!a]CO[!b]',
+    'thio': '[$]c1sc([$])cc1',        # five-membered hetero-aromatic monomer (the sulfur takes no hydrogen)
+    'pyrr': '[$]c1ccc[nH]1',
 }
 CG = {
     'xy': '[$][#X][#Y][$]',
